@@ -81,6 +81,7 @@ static void *body(void *arg) {
     while (!__atomic_load_n(&all_done, __ATOMIC_ACQUIRE)) syscall(SYS_futex, &all_done, FUTEX_WAIT, 0, NULL, NULL, 0);
     return NULL;
 }
+extern int verif_nonreentrant_calls;
 int main(int argc, char **argv) {
     if (argc < 6) return 2;
     strncpy(verif_cfgpath, argv[1], 4095); resfile = argv[2]; N = atoi(argv[3]); K = atoi(argv[4]); forkmode = !strcmp(argv[5], "fork"); if (argc > 6) forkdepth = atoi(argv[6]);
@@ -108,8 +109,8 @@ int main(int argc, char **argv) {
     fprintf(f, "{\"n\":%d,\"k\":%d,\"ptid\":[", N, K); for (int i = 0; i < N; i++) fprintf(f, "%s%lu", i ? "," : "", ptid[i]);
     fprintf(f, "],\"rec_calls\":["); for (int i = 0; i < N; i++) fprintf(f, "%s%d", i ? "," : "", rec_calls[i]);
     int badr = 0; for (int i = 0; i < 8; i++) badr += bad_ret[i];
-    fprintf(f, "],\"lone_rec_calls\":%d,\"bad_ret\":%d,\"repo_count\":%d,\"repo_first_null\":%d,\"repo_last_null\":%d,\"mutex_trylock\":%d,\"child_status\":%d,\"child_reached\":%d,\"steps\":%d,\"umask_end\":%d,\"inheritable_at_exec\":%d,\"inheritable_fd\":%d,\"bad_closes\":%d}\n",
-            rec_calls[7], badr, count, first_null, last_null, tl, child_status, child_reached, vs_steps(), (int)um_end, inheritable_seen, inheritable_fd, vs_bad_closes());
+    fprintf(f, "],\"lone_rec_calls\":%d,\"bad_ret\":%d,\"repo_count\":%d,\"repo_first_null\":%d,\"repo_last_null\":%d,\"mutex_trylock\":%d,\"child_status\":%d,\"child_reached\":%d,\"steps\":%d,\"umask_end\":%d,\"inheritable_at_exec\":%d,\"inheritable_fd\":%d,\"bad_closes\":%d,\"nonreentrant_libc_calls\":%d}\n",
+            rec_calls[7], badr, count, first_null, last_null, tl, child_status, child_reached, vs_steps(), (int)um_end, inheritable_seen, inheritable_fd, vs_bad_closes(), verif_nonreentrant_calls);
     fclose(f);
     return 0;
 }
